@@ -45,9 +45,24 @@ MOVE_CALLERS = {COMMIT: 'the single commit point of every read', 'bitstr_ext::wo
 
 def cell_of(f, operand):
     """which bitstr_mod cell a CellRef operand denotes"""
-    e = f.expr_of_operand(operand)
+    return cell_of_expr(f.expr_of_operand(operand))
+
+
+def reads_cell(e, cell):
+    """does e contain get_var(<the bitstr_mod cell `cell`>)?"""
+    return any(isinstance(y, tuple) and y[0] == 'call' and y[1] == 'state::State::get_var' and len(y[2]) > 1 and cell_of_expr(y[2][1]) == cell
+               for y in expr_walk(e))
+
+
+def cell_of_expr(e):
     for x in expr_walk(e):
         if isinstance(x, tuple) and x[0] == 'proj' and 'bitstr_mod' in x[2]:
+            for c in ('offset', 'input', 'stash', 'big_endian', 'output', 'output_len'):
+                if c in x[2]:
+                    return c
+    # through a local copy of the cell table (`let m = xs.bitstr_mod.clone(); .. m.offset`)
+    for x in expr_walk(e):
+        if isinstance(x, tuple) and x[0] == 'proj' and 'bitstr_mod' in expr_str(x[1], -12):
             for c in ('offset', 'input', 'stash', 'big_endian', 'output', 'output_len'):
                 if c in x[2]:
                     return c
@@ -179,6 +194,23 @@ def run(rep, facts, tier):
     # A commit wrapper (a function that peeks nothing, whose every Ok path forwards commit_read and whose
     # commit arguments are functions of its own parameters) is summarised and checked at its callers with
     # the actual arguments substituted, so helper extraction does not change the verdict.
+    # a function that peeks, checks something about the slice and hands it to its callers (no commit of its own) is a peek as well
+    PEEK_FNS = set(PEEKS)
+    grew = True
+    while grew:
+        grew = False
+        for fn in sorted(fx.fns):
+            if fn in PEEK_FNS or fn == COMMIT:
+                continue
+            f = fx.fns[fn]
+            if not any(callee_of(t) in PEEK_FNS for _, t in f.calls()) or any(callee_of(t) == COMMIT for _, t in f.calls()):
+                continue
+            oks = [(cls, d) for (bb, i, cls, d) in return_defs(f, follow=True) if cls in ('ok', 'forward')]
+            if oks and all((cls == 'forward' and d in PEEK_FNS) or cls == 'ok' for cls, d in oks) and \
+                    _mentions(f.expr_of_local(0), PEEK_FNS) and 'Bitstr' in f.local_ty(0):
+                PEEK_FNS.add(fn)
+                grew = True
+    rep.extra['peek_wrappers'] = sorted(PEEK_FNS - PEEKS)
     wrappers = {}     # fn -> [(e_end, e_val)] in terms of the wrapper's parameters
     changed = True
     while changed:
@@ -187,7 +219,7 @@ def run(rep, facts, tier):
             if fn in wrappers or fn == COMMIT:
                 continue
             f = fx.fns[fn]
-            if any(callee_of(t) in PEEKS for _, t in f.calls()):
+            if any(callee_of(t) in PEEK_FNS for _, t in f.calls()):
                 continue
             sites = _commit_sites(f, wrappers)
             if not sites:
@@ -201,11 +233,15 @@ def run(rep, facts, tier):
     n_readers = 0
     for fn in sorted(fx.fns):
         f = fx.fns[fn]
-        peeks = [(bb, t) for bb, t in f.calls() if callee_of(t) in PEEKS]
+        peeks = [(bb, t) for bb, t in f.calls() if callee_of(t) in PEEK_FNS]
         sites = _commit_sites(f, wrappers)
         if not peeks and not sites:
             continue
         key = 'C06.R3:%s' % fn
+        if fn in PEEK_FNS and fn not in PEEKS:
+            rep.add('C06.R3', key + ':peek-wrapper', True, 'peeks, checks the slice and hands it to its callers: counted as a peek, its callers are the readers',
+                    fn, f.j['span'], nontrivial=False)
+            continue
         if fn in wrappers:
             rep.add('C06.R3', key + ':commit-wrapper', True, 'forwards commit_read with arguments computed from its parameters: checked at its %d caller(s)'
                     % len(fx.callers().get(fn, ())), fn, f.j['span'], nontrivial=False)
@@ -223,9 +259,9 @@ def run(rep, facts, tier):
             s_end = _s(e_end)
             # the position IS end() of the peeked slice (or the end nulbytestr_peek computed) — not merely computed from it
             top = zstrip(e_end)
-            from_peek_end = (isinstance(top, tuple) and top[0] == 'call' and top[1] == 'bitstr::Bitstr::len' and _mentions(top, PEEKS)) \
+            from_peek_end = (isinstance(top, tuple) and top[0] == 'call' and top[1] == 'bitstr::Bitstr::len' and _mentions(top, PEEK_FNS)) \
                 or (isinstance(top, tuple) and top[0] == 'proj' and _mentions(top, {'bitstr_ext::nulbytestr_peek'}) and not _has_arith(top))
-            val_from_peek = _mentions(e_val, PEEKS)
+            val_from_peek = _mentions(e_val, PEEK_FNS)
             rep.add('C06.R3', key + ':advance-is-length-of-peeked-slice', from_peek_end,
                     'the cursor advances by .len() of the slice peek returned' if from_peek_end else
                     'advance %s is not the length of the peeked slice: the offset does not move by exactly n' % s_end[:70], fn, t.get('at'))
@@ -371,7 +407,7 @@ def check_open(rep, fx, of):
         if pb:
             x = pb[0]
             base, elem = x[2][0], x[2][1]
-            base_ok = 'stash' in _s(base) and 'get_var' in _s(base)
+            base_ok = reads_cell(base, 'stash')
             it = [y for y in expr_walk(elem) if isinstance(y, tuple) and y[0] == 'call' and y[1] == 'cell::Cell::insert_tag']
             # on EVERY path the element is the tagged one: an untagged shortcut (say, when the offset is 0) lets a user tag of the
             # same name on the input decide where close-bitstr puts the cursor
@@ -386,8 +422,8 @@ def check_open(rep, fx, of):
                 why = 'on some path the stash element is the old input as it is (%s), not the input tagged with the old offset' % expr_str(untagged[0], -8)[:60]
             if it:
                 y = it[0]
-                has_in = 'bitstr_mod.input' in _s(y[2][0]) and 'get_var' in _s(y[2][0])
-                has_off = 'bitstr_mod.offset' in _s(y[2][2]) and 'get_var' in _s(y[2][2])
+                has_in = reads_cell(y[2][0], 'input')
+                has_off = reads_cell(y[2][2], 'offset')
                 # the reads precede every cursor write
                 read_bbs = [z[3] for z in expr_walk(y) if isinstance(z, tuple) and z[0] == 'call' and z[1] == 'state::State::get_var']
                 before = all(all(of.dominates(rb, wb) and rb != wb for wb, _ in writes) for rb in read_bbs)
